@@ -398,6 +398,10 @@ pub fn run(ctx: &Ctx) -> Report {
         }
     }
     rep.run_enum("big", &bigs, check_big);
+    // descriptors over mappings with dozens to hundreds of classes whose names collide and repeat (the class table
+    // the descriptor renderer looks names up in is then built from re-listed blocks)
+    let max = ctx.tier.pick(80, 300);
+    rep.run_stage("wide", move || super::c04::wide_case(max), ctx.cases(300, 6_000), check_case);
     let per = ctx.cases(40_000, 2_000_000);
     let mass: Vec<MassChunk> = (0..16u64).map(|k| MassChunk { start: 1 + k * per, count: per }).collect();
     rep.run_enum("mass", &mass, check_mass);
@@ -410,7 +414,7 @@ pub fn run(ctx: &Ctx) -> Report {
 pub fn replay(stage: &str, case: &Value) -> Check {
     let mut st = Stats::new();
     match stage {
-        "ast" => check_case(&serde_json::from_value(case.clone()).map_err(|e| Fail::new("harness-replay", e.to_string()))?, &mut st),
+        "ast" | "wide" => check_case(&serde_json::from_value(case.clone()).map_err(|e| Fail::new("harness-replay", e.to_string()))?, &mut st),
         "big" => check_big(&serde_json::from_value(case.clone()).map_err(|e| Fail::new("harness-replay", e.to_string()))?, &mut st),
         "mass" => check_mass(&serde_json::from_value(case.clone()).map_err(|e| Fail::new("harness-replay", e.to_string()))?, &mut st),
         "exhaustive" => check_exhaustive(&ExhaustiveChunk { ret: case["ret"].as_u64().unwrap_or(0) as usize }, &mut st),
